@@ -108,3 +108,10 @@ def _c17_reparent_mark(v):
     m = v["mech"]
     return v["oracle"] == "order-fails" and m.get("both_fail") is False and m.get("ancestor_token_removed") is True \
         and m.get("validity_error") is True and "AddMarkStep" in (m.get("A"), m.get("B"))
+
+
+@predicate("C18-payload-placed-outside-isolating")
+def _c18_leak(v):
+    m = v["mech"]
+    return v["oracle"] == "leaked" and m.get("delete_family") is False and m.get("has_payload") is True \
+        and m.get("old_outside_tokens_preserved_in_order") is True
